@@ -380,6 +380,10 @@ func (r rawConn) Write(f func(fd uintptr) bool) error { f(uintptr(r.c.fd)); retu
 // ---- send ---------------------------------------------------------------------------
 
 func (c *UDPConn) WriteToUDPAddrPort(b []byte, addr netip.AddrPort) (int, error) {
+	if !addr.IsValid() {
+		// as package net: no system call is made
+		return 0, &net.OpError{Op: "write", Net: "udp", Err: errors.New("missing address")}
+	}
 	return c.send(b, addr)
 }
 
